@@ -765,20 +765,44 @@ func checkCycleTasksRecheck(p *Prog, r *Report) {
 		if f.Pkg != p.Ice || f.Body == nil || f.Decl == nil || f.Type.Params == nil {
 			continue
 		}
-		// the cycle context: a context.Context parameter
-		var ctxObj types.Object
+		// the cycle context: a context.Context parameter, or a context.Context field of a parameter struct
+		params := map[types.Object]bool{}
+		hasCtx := false
 		for _, fl := range f.Type.Params.List {
-			if typeStr(p.TypeOf(fl.Type)) != "context.Context" {
+			t := p.TypeOf(fl.Type)
+			isCtx := typeStr(t) == "context.Context"
+			if !isCtx && t != nil {
+				if st, ok := Deref0(t).Underlying().(*types.Struct); ok {
+					for i := 0; i < st.NumFields(); i++ {
+						if typeStr(st.Field(i).Type()) == "context.Context" {
+							isCtx = true
+						}
+					}
+				}
+			}
+			if !isCtx {
 				continue
 			}
 			for _, nm := range fl.Names {
-				if nm.Name != "_" && ctxObj == nil {
-					ctxObj = p.ObjOf(nm)
+				if nm.Name != "_" {
+					params[p.ObjOf(nm)] = true
+					hasCtx = true
 				}
 			}
 		}
-		if ctxObj == nil {
+		if !hasCtx {
 			continue
+		}
+		isCycleCtx := func(e ast.Expr) bool {
+			e = unparen(e)
+			if typeStr(p.TypeOf(e)) != "context.Context" {
+				return false
+			}
+			if sel, ok := e.(*ast.SelectorExpr); ok {
+				e = unparen(sel.X)
+			}
+			id, ok := e.(*ast.Ident)
+			return ok && params[p.ObjOf(id)]
 		}
 		for _, c := range p.CallsTo(f, false, "taskloop.Loop.Run") {
 			if len(c.Args) != 2 {
@@ -812,10 +836,8 @@ func checkCycleTasksRecheck(p *Prog, r *Report) {
 				found := false
 				for _, cc := range p.NodeCalls(nd) {
 					if p.CalleeName(cc) == "context.Context.Err" {
-						if s2, ok := unparen(cc.Fun).(*ast.SelectorExpr); ok {
-							if id, ok := unparen(s2.X).(*ast.Ident); ok && p.ObjOf(id) == ctxObj {
-								found = true
-							}
+						if s2, ok := unparen(cc.Fun).(*ast.SelectorExpr); ok && isCycleCtx(s2.X) {
+							found = true
 						}
 					}
 				}
@@ -859,11 +881,7 @@ func checkCycleTasksRecheck(p *Prog, r *Report) {
 							return false
 						}
 						s2, okS := unparen(cc.Fun).(*ast.SelectorExpr)
-						if !okS {
-							return false
-						}
-						id, okI := unparen(s2.X).(*ast.Ident)
-						return okI && p.ObjOf(id) == ctxObj
+						return okS && isCycleCtx(s2.X)
 					})
 					if !ok {
 						bad = p.Pos(nd.Pos())
